@@ -58,3 +58,21 @@ func verif_harness_C05_seq_timestamp_order() {
 		}
 	}
 }
+
+// C02 — a targeter failure stops the attack: after the real hit path has seen
+// the targeter fail (with any error, not only exhaustion), the attack is
+// stopped, so a later Stop call reports that it was not the one to stop it.
+//
+//verif:harness unwind=16
+func verif_harness_C02_targeter_failure_stops() {
+	a := &Attacker{stopch: make(chan struct{})}
+	atk := &attack{name: "x", began: time.Unix(0, 1000)}
+	if verif_is_symbolic_run() {
+		verif_stub("time.Now", func() time.Time { return time.Unix(0, 2000) })
+	}
+	errs := []error{ErrNoTargets, errors.New("bad target line"), ErrNilTarget}
+	which := verif_choose("targeter_error", len(errs))
+	res := a.hit(func(t *Target) error { return errs[which] }, atk)
+	verif_assert(res.Error != "", "C02.failed-hit-carries-the-error")
+	verif_assert(!a.Stop(), "C02.targeter-failure-stops-the-attack")
+}
